@@ -144,6 +144,11 @@ class Model(object):
   def _n_branch(self, n, st, in_td):
     if not in_td and st is not None and st.failed:
       return CONT
+    if n['cond'][0].startswith('BROKEN_'):
+      # evaluating the condition raises: like a checkpoint that cannot be evaluated this is a terminal error (no branch
+      # record); the run must not complete as if nothing had happened (C01's model-free audit demands "not PASS")
+      self._terminal(('EXC', 'TypeError'))
+      return TERM
     taken = self._cond(n['cond'])
     ret = self._seq(n['c'], st, in_td) if taken else CONT
     self.x.branches[('b%d' % n['id'], taken)] += 1
@@ -184,7 +189,10 @@ class Model(object):
       x.checkpoints.append(dict(name=name, result='SKIP', subtest=stname))
       return CONT
     kind = None
-    if n['k'] == 'diag':
+    if n['k'] == 'diag' and n['cond'][0].startswith('BROKEN_'):
+      kind = 'EXC:TypeError'      # a checkpoint that cannot be evaluated records the exception as its (terminal) result
+      fired = False
+    elif n['k'] == 'diag':
       fired = self._cond(n['cond'])
     else:
       recs = x.phases
